@@ -642,7 +642,8 @@ class cst(exp):
     @_checkarg_numeric
     def __lshift__(self, n):
         if n._is_cst:
-            return cst(self.value << n.value, self.size)
+            # the shift amount is an unsigned quantity; amounts >= size shift everything out
+            return cst(self.value << n.v if n.v < self.size else 0, self.size)
         else:
             return exp.__lshift__(self, n)
 
@@ -650,7 +651,7 @@ class cst(exp):
     def __rshift__(self, n):
         self.sf = False  # rshift implements logical right shift
         if n._is_cst:
-            return cst(self.value >> n.value, self.size)
+            return cst(self.value >> n.v, self.size)
         else:
             return exp.__rshift__(self, n)
 
@@ -658,7 +659,7 @@ class cst(exp):
     def __floordiv__(self, n):
         self.sf = True  # floordiv implements arithmetic right shift
         if n._is_cst:
-            return cst(self.value >> n.value, self.size)
+            return cst(self.value >> n.v, self.size)
         else:
             return exp.__floordiv__(self, n)
 
